@@ -5,15 +5,18 @@ From Coq Require Import Permutation Sorted.
 From Algo.C16 Require Import Model.
 Local Open Scope Z_scope.
 
+(** the strict order a comparator induces *)
+Definition ltc {A : Type} (cmp : A -> A -> Z) (x y : A) : Prop := cmp x y < 0.
+
 Section Spec.
   Variable A : Type.
   Variable eqb : A -> A -> bool.
-  Variable cmp : A -> A -> Z.
+  Variable cmp : nat -> A -> A -> Z.    (* the comparator of each sorted set, by index *)
 
   Definition memb (l : list A) (v : A) : bool := existsb (fun m => eqb m v) l.
 
-  (** the order the comparator induces *)
-  Definition lt (x y : A) : Prop := cmp x y < 0.
+  (** kinds whose member sequence is the insertion order *)
+  Definition linear (k : kind) : Prop := match k with Sorted _ => False | _ => True end.
 
   (** a mathematical set: a duplicate-free list (elements in order of insertion);
       two of them denote the same set when they have the same elements *)
@@ -24,10 +27,10 @@ Section Spec.
   Definition set_equiv (S1 S2 : list A) : Prop := forall x, In x S1 <-> In x S2.
 
   (** [repr k S l]: the member sequence [l] of a set of kind [k] represents the set [S]:
-      insertion order for the unordered (slot order) and the stable set, the comparator-sorted
-      permutation for the sorted set. *)
+      insertion order for the unordered (slot order) and the stable set, the permutation sorted
+      by the set's own comparator for a sorted set. *)
   Definition repr (k : kind) (S l : list A) : Prop :=
-    NoDup S /\ match k with Sorted => StronglySorted lt l /\ Permutation l S | _ => l = S end.
+    NoDup S /\ match k with Sorted c => StronglySorted (ltc (cmp c)) l /\ Permutation l S | _ => l = S end.
 
   (** well-formed set value: duplicate-free, and sorted when its kind says so *)
   Definition inv (s : vset A) : Prop := repr (vk s) (vm s) (vm s).
@@ -59,7 +62,7 @@ Section Programs.
   Variable zero : T.
   Variable grow : nat -> nat -> nat.
   Variable eqb : T -> T -> bool.
-  Variable cmp : T -> T -> Z.
+  Variable cmp : nat -> T -> T -> Z.
   Variable draw : nat -> nat.
 
   Inductive cmd :=
